@@ -36,6 +36,9 @@ pub struct WriteCase {
     pub flush: Vec<bool>,
     /// drop the handle after this many chunks
     pub drop_after: usize,
+    /// how the existing file came to be: 0 written in place, 1 moved here, 2 copied here, 3 moved then copied
+    #[serde(default)]
+    pub prelude: u8,
 }
 
 static SEQ: AtomicU64 = AtomicU64::new(0);
@@ -164,12 +167,21 @@ pub fn check_write(case: &WriteCase) -> CaseResult {
     let mode = if case.append { "append" } else { "write" };
     with_backend(case.stdfs, |v, dir| {
         let path = format!("{}/f", dir);
+        let (orig, moved) = (format!("{}/orig", dir), format!("{}/moved", dir));
         if let Some(old) = &case.existing {
-            if let Err(e) = v.write_all(&path, old) {
+            let prep = match case.prelude % 4 {
+                0 => v.write_all(&path, old),
+                1 => v.write_all(&orig, old).and_then(|_| v.move_p(&orig, &path)),
+                2 => v.write_all(&orig, old).and_then(|_| v.copy(&orig, &path)),
+                _ => v.write_all(&orig, old).and_then(|_| v.move_p(&orig, &moved)).and_then(|_| v.copy(&moved, &path)),
+            };
+            if let Err(e) = prep {
                 ctx().inconclusive(&format!("cannot prepare file on {}: {}", backend, e));
                 return Ok(());
             }
         }
+        // the files the prelude left behind must not be touched by the handle
+        let bystanders: Vec<(String, Option<String>)> = [&orig, &moved].iter().map(|p| (p.to_string(), v.read_all(p).ok())).collect();
         let res = catch(|| -> CaseResult {
             let mut expect: Vec<u8> = if case.append { case.existing.clone().unwrap_or_default() } else { vec![] };
             let readback = |v: &Vfs| -> Result<Vec<u8>, String> {
@@ -202,10 +214,18 @@ pub fn check_write(case: &WriteCase) -> CaseResult {
                 }
             }
             drop(h);
+            for (p, before) in &bystanders {
+                if v.read_all(p).ok() != *before {
+                    return Err(Failure::new(
+                        format!("{}-handle|other-file-changed|prelude={}|{}", mode, case.prelude % 4, backend),
+                        format!("writing through the handle of {} changed {} (case {:?})", path, p, case),
+                    ));
+                }
+            }
             match readback(v) {
                 Ok(b) if b == expect => Ok(()),
                 other => Err(Failure::new(
-                    format!("{}-handle|wrong-content-after-drop|existing={}|{}", mode, case.existing.is_some(), backend),
+                    format!("{}-handle|wrong-content-after-drop|existing={}|prelude={}|{}", mode, case.existing.is_some(), case.prelude % 4, backend),
                     format!("after drop: file holds {:?} want {:?} (case {:?})", other.map(|b| String::from_utf8_lossy(&b).to_string()), String::from_utf8_lossy(&expect), case),
                 )),
             }
@@ -243,15 +263,16 @@ fn write_case(stdfs: bool) -> impl Strategy<Value = WriteCase> {
         prop::collection::vec(prop::collection::vec(any::<u8>(), 0..24), 0..6),
         prop::collection::vec(any::<bool>(), 6),
         0usize..7,
+        0u8..4,
     )
-        .prop_map(move |(append, existing, chunks, flush, d)| {
+        .prop_map(move |(append, existing, chunks, flush, d, prelude)| {
             let drop_after = d.min(chunks.len());
-            WriteCase { stdfs, append, existing, chunks, flush, drop_after }
+            WriteCase { stdfs, append, existing, chunks, flush, drop_after, prelude }
         })
 }
 
 pub fn run(c: &Ctx) {
-    c.set_rule("read side: file bytes (0..300) + generated scripts of read(buf 0..64) / seek(Start|Current|End with offsets around 0, around len, negative beyond the start, +-i64::MAX/MIN, u64::MAX) / stream_position / read_to_end, executed in lock step on the handle returned by read() and on std::io::Cursor over the same bytes: same Ok value + bytes / same Err-ness per call and the same position after every call; both backends (Stdfs on tmpfs; resulting offsets above 2^62 excluded there because the kernel rejects them). Write side: data split into generated chunks, flush at generated points, handle dropped after any prefix, for write() and append(), file absent / present before: after each flush and after drop the file read back must hold exactly the bytes written so far (append: old content + them). Non-trivial = script with an out-of-range seek followed by a read, or a drop without a final flush; distinct by case.");
+    c.set_rule("read side: file bytes (0..300) + generated scripts of read(buf 0..64) / seek(Start|Current|End with offsets around 0, around len, negative beyond the start, +-i64::MAX/MIN, u64::MAX) / stream_position / read_to_end, executed in lock step on the handle returned by read() and on std::io::Cursor over the same bytes: same Ok value + bytes / same Err-ness per call and the same position after every call; both backends (Stdfs on tmpfs; resulting offsets above 2^62 excluded there because the kernel rejects them). Write side: data split into generated chunks, flush at generated points, handle dropped after any prefix, for write() and append(), file absent / present before (written in place, moved there, copied there, or moved then copied): after each flush and after drop the file read back must hold exactly the bytes written so far (append: old content + them). Non-trivial = script with an out-of-range seek followed by a read, or a drop without a final flush; distinct by case.");
     c.assume("std::io::Cursor is the reference for Read+Seek; std::fs semantics on this kernel/tmpfs for the Stdfs side");
     let n = c.tier.pick(20_000, 400_000);
     let ns = c.tier.pick(3_000, 40_000);
